@@ -14,6 +14,10 @@ from openhtf.core import test_record as TR
 CONF = H.CONF
 TESTS = {}
 
+# deviation kinds: (behaviour code, measurement kind); index 0 is nominal.
+KINDS = ((0, 0), (2, 0), (4, 0), (6, 0), (5, 0), (3, 0), (0, 1),          # quick: 0..6
+         (8, 0), (10, 0), (9, 0), (7, 0), (0, 2), (1, 3))                  # thorough adds 7..12
+
 
 def test_for(ti):
   if ti not in TESTS:
